@@ -403,7 +403,7 @@ def gen_plan(run_seed, fault_mode=None):
     # closing: explicit close somewhere in the tail in some runs, followed by use-after-close ops
     if wl.random() < 0.35 and ops:
         pos = wl.randint(max(0, len(ops) - 6), len(ops))
-        how = wl.choice(['close', 'exit', 'exit_exc'])
+        how = wl.choice(['close', 'exit', 'exit_exc', 'exit_kbd'])
         ops.insert(pos, ['close', how])
     if fault_mode is None:
         fault_mode = 'none'
@@ -675,6 +675,10 @@ class _RunState:
             status, val = self.call(c.close)
         elif how == 'exit':
             status, val = self.call(lambda: c.__exit__(None, None, None))
+        elif how == 'exit_kbd':
+            # the with-block is left by a KeyboardInterrupt / SystemExit (not an Exception subclass)
+            e = KeyboardInterrupt('user abort inside with-block')
+            status, val = self.call(lambda: c.__exit__(KeyboardInterrupt, e, None))
         else:
             e = RuntimeError('user error inside with-block')
             status, val = self.call(lambda: c.__exit__(RuntimeError, e, None))
@@ -708,7 +712,11 @@ class _RunState:
         self.cur_op_kind = 'final_close'
         if not self.closed and self.caches:
             self.sched.begin_op()
-            self.do_close('exit' if self.cfg['enter'] else 'close')
+            how = 'close'
+            if self.cfg['enter']:
+                # how the with-block ends is part of the plan's seed (no extra draw from the workload generator)
+                how = ['exit', 'exit', 'exit_exc', 'exit_kbd'][self.plan['run_seed'] % 4]
+            self.do_close(how)
         self.check_error_log()
 
     def cleanup_files(self):
